@@ -216,7 +216,7 @@ def saturation_cases(draw, tier):
         tail = "".join(rng.choice("ACGT") for _ in range(rng.randrange(1, 20)))
     return {"graph": graph, "previous": previous, "text": prefix + tail, "location": location, "shape": shape,
             "indel": draw(st.booleans()), "alphabet": draw(st.sampled_from([None, None, None, "ACGT", "TGCA", "CATG"])),
-            "layout": draw(st.sampled_from([None, None, None, "F", "strided", "offset", "int32"])),
+            "layout": draw(st.sampled_from([None, None, None, "F", "strided", "offset", "int32", "readonly"])),
             "np_scalars": draw(st.sampled_from([False, False, True]))}
 
 
